@@ -700,7 +700,7 @@ static void check_part_from_file(const Case& c, const Built& B, const std::strin
              (ull)a, (ull)b, (ull)M.prefix[a], (ull)M.prefix[b], (ull)M.n, (ull)M.m, M.version, st);
     }
     GG::FileGraph fg;
-    do_part_from_file(fg, path, M, a, b, getenv("NONUMA") ? false : idx % 7 == 3);
+    do_part_from_file(fg, path, M, a, b, idx % 7 == 3);
     check_fg<E>("partFromFile", fg, B, M, a, b, true);
     if (idx % 3 == 0 || ranges.size() <= 24) { // a copy of a partially loaded graph is the same part
       uint64_t pe = M.prefix[b] - M.prefix[a];
